@@ -53,7 +53,7 @@ def cases(tier, rng, dist):
                "pynum": rng.random() < 0.5, "in_place": rng.random() < 0.5,
                # how the user's randomizer delivers the new assignment: a fresh array bound to data.group (as randomize_group
                # does) or the existing array overwritten in place (as randomize_in_strata does)
-               "rand_style": rng.choice(["rebind", "inplace", "inplace"])}
+               "rand_style": rng.choice(["rebind", "inplace", "inplace"]), "abort_first": rng.choice([None, None, 2, 3])}
     # the data in force are the Experiment's CURRENT arrays: the caller edits responses (or the strata column) in place
     # between two sim_npc calls; the second call must equal the same call on a fresh Experiment holding the edited data
     for _ in range(12 if tier == "quick" else 120):
@@ -102,9 +102,22 @@ def run_sim(c):
     R = NPC.Experiment.Randomizer(randomize=rand)
     data = NPC.Experiment(group=[0, 0, 0], response=[[1], [2], [3]], randomizer=R)
     tests = [mk(j) for j in range(len(t[0]))]
+    aborted = None
+    if c.get("abort_first") is not None:
+        # FAILURE PATH: on the SAME Experiment, a call with in_place=False is first aborted inside its repetition loop (the first
+        # test raises at its 2nd / 3rd evaluation: an ordinary exception or a non-Exception such as Ctrl-C); it worked on a copy
+        # and must leave the Experiment as given for the valid call that follows
+        cnt = [0]
+        def bad(d):
+            cnt[0] += 1
+            if cnt[0] >= c["abort_first"]:
+                raise (Abort() if c["abort_first"] % 2 else ValueError("test statistic failed on purpose"))
+            return 0.0
+        aborted = rejected(lambda: NPC.sim_npc(data, [bad] + tests[1:], combine=make_comb(c["comb"]), in_place=False, reps=len(t) + 2))
+        state["k"] = 0
     r = guarded(lambda: NPC.sim_npc(data, tests, combine=make_comb(c["comb"]), in_place=c["in_place"], reps=len(t) - 1))
     if r[0] != "ok":
-        return {"r": list(r)}
+        return {"r": list(r), "aborted": aborted}
     p, ts, ps = r[1]
     return {"r": ["ok", float(p), [float(ps[j]) for j in range(len(t[0]))]], "ts": [float(ts[j]) for j in range(len(t[0]))],
             "group_after": [int(g) for g in data.group]}
